@@ -146,7 +146,8 @@ func c12Families() []*c12Family {
 		{name: "strbyte", body: "local r = cnt(string.byte(S, 1, -1))", expect: fn, needLo: lin(1, 0), needHi: lin(3, c12Slack), minN: 1},
 		{name: "strchar", body: "local r = #string.char(unpack(B))", expect: fn, needLo: lin(1, 0), needHi: lin(2, c12Slack), minN: 1},
 		{name: "mathmax", body: "local r = math.max(unpack(T))", expect: func(n int) float64 { return float64(3*n + 1) }, needLo: lin(1, 0), needHi: lin(2, c12Slack), minN: 1},
-		{name: "concat", body: "local r = #table.concat(B, ',')", expect: func(n int) float64 { return float64(3*n - 1) }, needLo: lin(2, -1), needHi: lin(3, c12Slack), minN: 1},
+		// (table.concat is not among the vehicles: it need not use the value stack at all — ltablib.c does
+		// not, and gopher-lua no longer does since its repair — so nothing can be said about its demand)
 		{name: "coargs", body: "local co = coroutine.wrap(function(...) local c = select('#', ...) local c2 = cnt(coroutine.yield(c)) return c2 end) local c = co(unpack(T)) local c2 = co(unpack(T)) local r = c + c2",
 			expect: func(n int) float64 { return float64(2 * n) }, needLo: lin(1, 0), needHi: lin(3, c12Slack), minN: 1},
 		{name: "coyield", body: "local co = coroutine.wrap(function() coroutine.yield(unpack(T)) return 0 end) local r = cnt(co())", expect: fn, needLo: lin(1, 0), needHi: lin(3, c12Slack), minN: 1},
